@@ -158,8 +158,13 @@ func VerifC17Shutdown() {
 	r := verifGrafanaNet(concurrency, 4, 100, false)
 	verifHTTPMaxFailures(0)
 	verifSettle()
-	n := verifChoice("n", 3)
-	names := []string{"a.x", "b.y"}
+	// up to 4 lines, of one series (one shard) or of two: the first line of a shard is handed to its waiting
+	// worker directly, the others sit in the shard's buffer when Shutdown is called
+	n := verifChoice("n", 5)
+	names := []string{"a.x", "b.y", "a.x", "a.x"}
+	if verifBool("one-series") {
+		names = []string{"a.x", "a.x", "a.x", "a.x"}
+	}
 	for i := 0; i < n; i++ {
 		r.Dispatch([]byte(names[i] + " 1 150000000" + string(rune('0'+i))))
 	}
